@@ -61,6 +61,7 @@ def _gen_filters(rng, dump):
                 f['proc'] = rng.pick(['0' + f['proc'], '+' + f['proc'], ' ' + f['proc'], f['proc'] + ' '])    # int() accepts it; it is neither the name nor the pid text
             if 'tid' in f and (rng.chance(0.5) or dump.get('born')):
                 f.pop('tid')
+    f['show'] = [rng.chance(0.7) for _ in range(7)]     # column switches and colour: presentation only, never which traces come
     f['as_tuple'] = False    # traces() with tuple filters is exercised separately (probe tuple_filter)
     if rng.chance(0.1) and ('cls' in f or 'sub' in f):
         f['as_tuple'] = True
@@ -104,6 +105,17 @@ def _fix_samples(dump):
 
 def generate(rng, index, tier):
     dumps = []
+    if index % 601 == 19:
+        # one call that takes very long: more than ten thousand records of other classes on its thread before it returns
+        n = [4200, 10100, 17000][(index // 601) % 3]
+        d = worlds.gen_dump(rng, version=2, nthreads=1, mix={'bsd': 1}, declare_all=True, logs=False)
+        d['threads'][0]['ops'] = [worlds.op_long_window(rng, 'BSC_read', n)] + d['threads'][0]['ops'][:2]
+        d['schedule'] = []
+        return {'dumps': [d], 'history': [{'op': 'request', 'dump': 0, 'what': 'traces', 'repeat': False},
+                                          {'op': 'set', 'filters': {'cls': [4], 'as_tuple': False}},
+                                          {'op': 'request', 'dump': 0, 'what': 'traces', 'repeat': True},
+                                          {'op': 'set', 'filters': {'sub': [0x40c], 'tid': d['threads'][0]['tid'], 'as_tuple': False}},
+                                          {'op': 'request', 'dump': 0, 'what': 'traces', 'repeat': False}], 'long': n}
     for _dn in range(rng.randint(1, 2)):
         d = worlds.gen_dump(rng, version=rng.pick([2, 2, 3]), nthreads=rng.randint(1, 3),
                             mix={'bsd': 3, 'path': 4, 'mach': 2, 'tracedom': 2, 'perf': 2, 'dyld': 3, 'turnstile': 1, 'lookup': 1,
@@ -295,6 +307,8 @@ def execute(scn):
         if h['op'] == 'set':
             cur = h['filters']
             apply_filters(p, cur)
+            for sw, v in zip(('show_timestamp', 'show_name', 'show_func_qual', 'show_tid', 'show_process', 'show_args'), cur.get('show', [])):
+                setattr(p, sw, v)
             bump('fault:reconfigure')
             continue
         di = h['dump'] % len(files)
